@@ -32,7 +32,7 @@ func (x *Exec) resolveCall(c *ssa.CallCommon) (*ssa.Function, *Contract) {
 }
 
 func (x *Exec) canInline(f *ssa.Function) bool {
-	if f == nil || len(f.Blocks) == 0 {
+	if f == nil || len(f.Blocks) == 0 || x.noInline {
 		return false
 	}
 	if f.Pkg == nil && f.Origin() == nil && f.Parent() == nil {
